@@ -117,7 +117,12 @@ fn run_conc(cfg: &ConcCfg, rng: &mut Rng, sid: u64) -> ConcOutcome {
         let _ = await_no_library_thread();
         obs.push(("short_lived_emitting_threads_before_the_producers".into(), k as u64));
     }
-    let mut builder = QueuingMetricSink::builder();
+    // (three public ways to a builder: they are the same builder)
+    let mut builder = match sid % 3 {
+        0 => QueuingMetricSink::builder(),
+        1 => cadence::QueuingMetricSinkBuilder::new(),
+        _ => cadence::QueuingMetricSinkBuilder::default(),
+    };
     let handler_first = sid % 2 == 0;
     if cfg.handler && handler_first {
         builder = builder.with_error_handler(handler_for(sh.clone()));
